@@ -68,7 +68,7 @@ def batmsg(cid, kind, now):
     elif kind == "critical":
         kw["errors"] = [BatteryError(level=ErrorLevel.CRITICAL, message="boom")]
     elif kind == "nan-capacity":
-        kw["cap"] = math.nan
+        kw["cap"] = float("nan")  # not the math.nan singleton
     elif kind == "warn":
         kw["errors"] = [BatteryError(level=ErrorLevel.WARN, message="meh")]
     return fakes.bat(cid, ts=ts, **kw)
